@@ -278,6 +278,67 @@ class NumberApply(_NumberBase):
     return dict(self=self.mk(m, 'self'), value=v)
 
 
+@register
+class NumberApplyModifiers(NumberApply):
+  """apply with the modifiers symbolic: frozen (accepts exactly its frozen
+  value, None included when that is the frozen value), noneable, a default, and
+  allow_partial.  `acc_full` is the statement's acceptance with modifiers."""
+  name = 'Number.apply/modifiers'
+  variants = ('int',)
+
+  def inputs(self, b):
+    s = self.number(b, 'self')
+    s.fields['_frozen'] = b.bool('self_frozen')
+    s.fields['_default'] = b.choice('self_default_kind', [MV, None, b.num('self_default', self.variant)])
+    v = b.choice('v_kind', [None, b.num('v', self.variant)])
+    return dict(self=s, value=v, allow_partial=b.bool('allow_partial'), child_transform=None,
+                root_path=None), {}
+
+  def requires(self, self_):
+    # class invariants: a frozen spec has a default; a default is a value the
+    # unfrozen spec accepts (None only if noneable, a number only if in range)
+    d = self_._default
+    return (wf_num(self_) and (not self_._frozen or MV != d)
+            and (MV == d or (self_._is_noneable if d is None
+                             else acc_num(self_._min_value, self_._max_value, d))))
+
+  def _acc(self, self_, v):
+    d = None if MV == self_._default else self_._default
+    return acc_full(self_._frozen, d, self_._is_noneable, self_._min_value, self_._max_value, v)
+
+  def ensures_result_accepted(self, self_, value, result):
+    return self._acc(self_, result)
+
+  def raises_rejected_only_if_not_accepted(self, self_, value):
+    return not self._acc(self_, value)
+
+  def _mk(self, m):
+    d_kind = m.choices.get('self_default_kind', 0)
+    kw = {}
+    if d_kind == 2 and not m.get('self_frozen'):
+      kw['default'] = m['self_default']
+    s = pg.typing.Int(min_value=m.opt('self_min'), max_value=m.opt('self_max'), **kw)
+    if m.get('self_noneable'):
+      s = s.noneable()
+    if m.get('self_frozen'):
+      s = s.freeze(None if d_kind == 1 else m['self_default'])
+    elif d_kind == 1 and m.get('self_noneable'):
+      s.set_default(None)
+    return s
+
+  def native(self, m):
+    v = None if m.choices.get('v_kind', 0) == 0 else m['v']
+    try:
+      s = self._mk(m)
+    except (ValueError, TypeError):
+      return None
+    return s.apply, [v], dict(allow_partial=bool(m.get('allow_partial')))
+
+  def native_env(self, m):
+    v = None if m.choices.get('v_kind', 0) == 0 else m['v']
+    return dict(self=self._mk(m), value=v)
+
+
 def _common_policy(policy):
   from pyglove.core.typing import inspect as pg_inspect
   from pyvc import axioms
